@@ -264,6 +264,21 @@ func batchModels(all bool) []*batchModel {
 			out[len(out)-1].Big = big
 		}
 	}
+	for _, act := range []string{"Sigmoid", "Tanh", "Relu", "Abs", "Atan", "Sinh"} {
+		for _, big := range []float64{150, 1e7} {
+			if act == "Sinh" && big > 150 {
+				continue
+			}
+			mkModel(fmt.Sprintf("%s/big-sample-x%g", act, big), "x", []hx.DimSpec{N, fx(3)}, batchIO{[]int{1, 3}, 0}, nil, []*onnx.NodeProto{hx.Node(act, []string{"x"}, []string{"y"}, nil)}, nil, map[string]int{"y": 0}, nil, nil)
+			out[len(out)-1].Big = big
+		}
+	}
+	for _, op := range []string{"GRU", "LSTM", "RNN"} {
+		ng := map[string]int{"RNN": 1, "GRU": 3, "LSTM": 4}[op]
+		mkModel(op+"/big-sample-x150", "x", []hx.DimSpec{fx(2), N, fx(3)}, batchIO{[]int{2, 1, 3}, 1}, nil, []*onnx.NodeProto{hx.Node(op, []string{"x", "W", "R", "B"}, []string{"Y", "Yh"}, []hx.Attr{hx.AInt("hidden_size", 2)})},
+			[]*onnx.TensorProto{init("W", 1, ng*2, 3), init("R", 1, ng*2, 2), init("B", 1, 2*ng*2)}, map[string]int{"Y": 2, "Yh": 1}, nil, nil)
+		out[len(out)-1].Big = 150
+	}
 	mkModel("Gemm+Tanh/big-sample", "x", []hx.DimSpec{N, fx(3)}, batchIO{[]int{1, 3}, 0}, nil, []*onnx.NodeProto{hx.Node("Gemm", []string{"x", "W", "b"}, []string{"h"}, nil), hx.Node("Tanh", []string{"h"}, []string{"y"}, nil)}, []*onnx.TensorProto{init("W", 3, 2), init("b", 2)}, map[string]int{"y": 0, "h": 0}, nil, nil)
 	out[len(out)-1].Big = 150
 	// LSTM with peephole weights (input 7), with and without initial states
@@ -331,7 +346,7 @@ func checkC16(c *hx.Checker) {
 		pool, maxLen = 5, 5
 	}
 	models := batchModels(thorough)
-	c.Rule = fmt.Sprintf("%d models: sample models mlp, scaler, gru (thorough: + ndm); generated per-sample models (Gemm/MatMul against weights, mlp, elementwise + activations, PRelu, Softmax/LogSoftmax over a non-batch axis, Scaler, LinearRegressor, Gather/Slice/Concat/ArgMax/Reduce on a non-batch axis, Reshape(0,-1), Flatten, Unsqueeze/Squeeze, Expand, Cast), each also behind 4 batch-preserving first stages (Relu, Add-bias, Mul, Tanh) = all 1- and 2-stage combinations; Conv 1-D/2-D (batch axis 0); RNN/GRU/LSTM with and without initial states and with seq=1 (batch axis 1); the Transpose>GRU>Squeeze>Transpose wrapping; LSTM with peephole weights, GRU with linear_before_reset; MatMul of a rank-4 input against per-head (rank-3) and shared weights, Conv with a kernel as large as the (padded) image and with a stride as large as the image; Softmax/LogSoftmax (last and non-last axis) and Gemm+Tanh with one sample of the pool 150 times (Softmax/LogSoftmax also 1e7 times) larger than the others. "+
+	c.Rule = fmt.Sprintf("%d models: sample models mlp, scaler, gru (thorough: + ndm); generated per-sample models (Gemm/MatMul against weights, mlp, elementwise + activations, PRelu, Softmax/LogSoftmax over a non-batch axis, Scaler, LinearRegressor, Gather/Slice/Concat/ArgMax/Reduce on a non-batch axis, Reshape(0,-1), Flatten, Unsqueeze/Squeeze, Expand, Cast), each also behind 4 batch-preserving first stages (Relu, Add-bias, Mul, Tanh) = all 1- and 2-stage combinations; Conv 1-D/2-D (batch axis 0); RNN/GRU/LSTM with and without initial states and with seq=1 (batch axis 1); the Transpose>GRU>Squeeze>Transpose wrapping; LSTM with peephole weights, GRU with linear_before_reset; MatMul of a rank-4 input against per-head (rank-3) and shared weights, Conv with a kernel as large as the (padded) image and with a stride as large as the image; Softmax/LogSoftmax (last and non-last axis) Gemm+Tanh, 6 activation operators and RNN/GRU/LSTM with one sample of the pool 150 times (Softmax/LogSoftmax also 1e7 times) larger than the others. "+
 		"per model: sample pool of %d distinct samples; EVERY batch = every sequence over the pool of length 1..%d (all permutations, sub-selections, repetitions, batch sizes). Oracle: position i of every batched output equals the output of evaluating that sample alone (N=1), rel 1e-5; non-trivial = batches of size >= 2", len(models), pool, maxLen)
 	c.Assumptions = []string{"'up to floating-point rounding': rel 1e-5 + abs 1e-6 (float32; abs 2e-4 for the models with a sample of magnitude ~150, whose intermediates have an ulp of 3e-5); the number of bit-identical cases is reported as an outcome class", "models are restricted to operators acting per sample along the batch axis, as in the statement"}
 	type job struct {
